@@ -125,3 +125,9 @@ def callee3(p, q, r=0):
 @m.memento_function(cluster="c", version="r3")
 def ccallee(x, y=1):
     return REC.tick("ccallee", x, y)
+
+
+# ---- two-parameter function for batches (C15) ---------------------------------------------
+@m.memento_function(version="b1")
+def pair(prefix, k):
+    return _produce("pair", "%s|%s" % (prefix, k))
